@@ -454,14 +454,15 @@ func (m *Machine) doDispose(force bool) {
 	if !force {
 		m.activeStatesMx.Lock()
 		defer m.activeStatesMx.Unlock()
-		m.subs.Mx.Lock()
-		defer m.subs.Mx.Unlock()
 		m.tracersMx.Lock()
 		defer m.tracersMx.Unlock()
 		m.handlersMx.Lock()
 		defer m.handlersMx.Unlock()
 		m.queueMx.Lock()
 		defer m.queueMx.Unlock()
+		// after queueMx, like the end of processQueue and WhenQueue*
+		m.subs.Mx.Lock()
+		defer m.subs.Mx.Unlock()
 	}
 
 	verifhook.Point("dispose.locked")
